@@ -19,6 +19,7 @@ from .values import (
     JSRegExp,
     JSTypedArray,
     JSArrayBuffer,
+    JSBoundMethod,
     to_boolean,
     to_number,
     as_double,
@@ -918,17 +919,18 @@ class VM:
             method_order = ["valueOf", "toString"]
 
         for method_name in method_order:
-            method = value.get(method_name)
-            if method is UNDEFINED or method is NULL:
-                continue
+            # Get(value, name) including inherited and built-in methods, called with this = value
+            method = self._get_property(value, method_name)
             if isinstance(method, JSFunction):
                 result = self._call_callback(method, [], value)
-                if not isinstance(result, JSObject):
-                    return result
+            elif isinstance(method, JSBoundMethod):
+                result = method(value)
             elif callable(method):
                 result = method()
-                if not isinstance(result, JSObject):
-                    return result
+            else:
+                continue
+            if not isinstance(result, JSObject):
+                return result
 
         # If we get here, conversion failed
         raise JSTypeError("Cannot convert object to primitive value")
